@@ -61,7 +61,7 @@ def tasks(tier):
     # order1 hands the 4x4 system to augmented_matrix / gj_solve (C13): their
     # contracts for n = 4 are re-proved here
     return ['shepard', 'sph', 'splash', 'splash_norm', 'order1', 'traces',
-            'canary', 'dep:C13:helpers:4', 'dep:C13:gj:4:1']
+            'setup', 'canary', 'dep:C13:helpers:4', 'dep:C13:gj:4:1']
 
 
 # ------------------------------------------------------------------ helpers
@@ -254,6 +254,8 @@ def run_task(task, ctx):
         return deps.run_dep(task, ctx)
     repo = Repo()
     m = repo.module(MOD)
+    if task == 'setup':
+        return task_setup(ctx, repo, m)
     if task == 'shepard':
         return task_weighted(ctx, repo, m, 'InterpolateFunction', 'shepard')
     if task == 'sph':
@@ -493,9 +495,13 @@ def task_traces(ctx, repo, m):
 
             def mk_array(i):
                 def get(ex, st, a, k, n):
+                    # ALL particles (ghost copies of a periodic domain
+                    # included) must be read and written
+                    allp = k.get('only_real_particles', True) is False
                     if a[0] == 'temp_prop':
-                        return TempView(i)
-                    return ('data', i, a[0])
+                        return TempView(i) if allp else TempView(('real', i))
+                    return ('data', i, a[0]) if allp else ('real_data', i,
+                                                          a[0])
                 pa = SymObject(None, dict(properties=Props(i),
                                           get=Native(get)), 'array%d' % i)
                 return pa
@@ -668,3 +674,153 @@ print(json.dumps(dict(maxdiff=float(abs(T1 - ref).max()), tmax=float(T1.max())))
     ctx.prove('interpolator.rebinding', [Obligation(
         'rebind', [], z3.BoolVal(bool(ok and ok3)), W)],
         info='events %s / %s %s' % ([e[0] for e in ev], a_, ev2))
+
+
+# ------------------------------------------------------------ set-up wiring
+def task_setup(ctx, repo, m):
+    """How an Interpolator is put together (trace contracts on the real
+    private helpers): the neighbour search spans the sources plus the points
+    with the kernel's own radius_scale and dim, cache on, and is handed to
+    the evaluator; every method evaluates ITS equation class on destination
+    'interpolate' from ALL source arrays (order1: densities first, with
+    real=False, then the pre-step, then the approximation); the points carry
+    h = the largest h of any source and the result properties with the
+    documented strides; every source array gets temp_prop."""
+    cls = 'Interpolator'
+    W = m.path
+    obs = []
+    # _create_nnps
+    fn = m.methods(cls)['_create_nnps']
+    made = []
+    fe = SymObject(None, dict(set_nnps=Native(lambda e, s_, a, k, n:
+                                              made.append(('set_nnps',
+                                                           a[0])))), 'fe')
+    kern = SymObject(None, dict(dim=z3.Int('kdim'),
+                                radius_scale=z3.Real('krs')), 'kernel')
+    obj = SymObject(cls, dict(kernel=kern, domain_manager='DM',
+                              func_eval=fe), 'self')
+    obj.module = m.name
+    ex = Executor(repo, m, qualname=cls + '._create_nnps', merge=False,
+                  externals={'LinkedListNNPS': lambda e, s_, a, k, n: made.append(
+                      ('NNPS', tuple(a), dict(k))) or 'THE_NNPS'})
+    outs = ex.exec_function(fn, dict(self=obj, arrays=['A', 'B', 'PTS']))
+    ctx.function(m, fn, cls + '._create_nnps')
+    ok = len(outs) == 1 and len(made) == 2 and made[0][0] == 'NNPS' and \
+        not made[0][1] and made[0][2].get('particles') == ['A', 'B', 'PTS'] \
+        and S.same(made[0][2].get('dim'), kern.attrs['dim']) and \
+        S.same(made[0][2].get('radius_scale'), kern.attrs['radius_scale']) \
+        and made[0][2].get('domain') == 'DM' and \
+        made[0][2].get('cache') is True and made[1] == ('set_nnps',
+                                                        'THE_NNPS') and \
+        outs[0].state.env['self'].attrs.get('nnps') == 'THE_NNPS'
+    obs.append(Obligation('setup.nnps', [], z3.BoolVal(bool(ok)), W,
+                          extra=dict(made=str(made)[:300])))
+    # _compile_acceleration_eval, every method
+    fn = m.methods(cls)['_compile_acceleration_eval']
+    want_cls = dict(shepard='InterpolateFunction', sph='InterpolateSPH',
+                    splash='SPLASHInterpolateProperty',
+                    splash_norm='SPLASHInterpolatePropertyNormalized')
+    for method in ('shepard', 'sph', 'splash', 'splash_norm', 'order1'):
+        made = []
+
+        def eqn(name):
+            return lambda e, s_, a, k, n, name=name: ('EQ', name,
+                                                       tuple(sorted(
+                                                           (kk, str(vv))
+                                                           for kk, vv in
+                                                           k.items())))
+        ext = {nm: eqn(nm) for nm in (
+            'InterpolateFunction', 'InterpolateSPH',
+            'SPLASHInterpolateProperty',
+            'SPLASHInterpolatePropertyNormalized', 'SummationDensity',
+            'SPHFirstOrderApproximationPreStep',
+            'SPHFirstOrderApproximation')}
+        ext['Group'] = lambda e, s_, a, k, n: ('GROUP', tuple(
+            k.get('equations', a[0] if a else [])), k.get('real'))
+        ext['AccelerationEval'] = lambda e, s_, a, k, n: made.append(
+            ('AE', a)) or 'THE_AE'
+        comp = SymObject(None, dict(compile=Native(
+            lambda e, s_, a, k, n: made.append(('compile',)))), 'compiler')
+        ext['SPHCompiler'] = lambda e, s_, a, k, n: made.append(
+            ('SPHCompiler', a)) or comp
+        pas = [SymObject(None, dict(name='fluid'), 'pa0'),
+               SymObject(None, dict(name='solid'), 'pa1')]
+        obj = SymObject(cls, dict(particle_arrays=pas, equations=None,
+                                  method=method, dim=2, kernel='KERNEL'),
+                        'self')
+        obj.module = m.name
+        ex = Executor(repo, m, qualname=cls + '._compile_acceleration_eval',
+                      merge=False, externals=ext)
+        try:
+            outs = ex.exec_function(fn, dict(self=obj, arrays=['ARRS']))
+        except VCError as e:
+            obs.append(Obligation('setup.equations.%s' % method, [],
+                                  z3.BoolVal(False), W,
+                                  extra=dict(error=str(e))))
+            continue
+        ae = [x for x in made if x[0] == 'AE']
+        ok = len(outs) == 1 and len(ae) == 1 and ae[0][1][0] == ['ARRS'] \
+            and ae[0][1][2] == 'KERNEL' and \
+            [x[0] for x in made] == ['AE', 'SPHCompiler', 'compile'] and \
+            outs[0].state.env['self'].attrs.get('func_eval') == 'THE_AE'
+        if ok:
+            eqs = ae[0][1][1]
+            srcs = "['fluid', 'solid']"
+            if method != 'order1':
+                ok = len(eqs) == 1 and eqs[0][1] == want_cls[method] and \
+                    dict(eqs[0][2]) == dict(dest='interpolate', sources=srcs)
+            else:
+                ok = len(eqs) == 3 and all(g[0] == 'GROUP' for g in eqs) \
+                    and eqs[0][2] is False and eqs[1][2] is True and \
+                    eqs[2][2] is True and \
+                    [(q[1], dict(q[2])) for q in eqs[0][1]] == [
+                        ('SummationDensity', dict(dest='fluid',
+                                                  sources=srcs)),
+                        ('SummationDensity', dict(dest='solid',
+                                                  sources=srcs))] and \
+                    [(q[1], dict(q[2])) for q in eqs[1][1]] == [
+                        ('SPHFirstOrderApproximationPreStep', dict(
+                            dest='interpolate', sources=srcs, dim='2'))] and \
+                    [(q[1], dict(q[2])) for q in eqs[2][1]] == [
+                        ('SPHFirstOrderApproximation', dict(
+                            dest='interpolate', sources=srcs, dim='2'))]
+        obs.append(Obligation('setup.equations.%s' % method, [], z3.BoolVal(
+            bool(ok)), W, extra=dict(made=str(made)[:400])))
+    ctx.function(m, fn, cls + '._compile_acceleration_eval')
+    # _get_max_h_in_arrays: the largest h of any source array
+    fn = m.methods(cls)['_get_max_h_in_arrays']
+    hm = [z3.Real('hmax0'), z3.Real('hmax1')]
+    pas = [SymObject(None, dict(h=SymObject(None, dict(max=Native(
+        lambda e, s_, a, k, n, i=i: hm[i])), 'h%d' % i)), 'pa%d' % i)
+        for i in range(2)]
+    obj = SymObject(cls, dict(particle_arrays=pas), 'self')
+    obj.module = m.name
+    ex = Executor(repo, m, qualname=cls + '._get_max_h_in_arrays', merge=True)
+    outs = ex.exec_function(fn, dict(self=obj), State(pc=[hm[0] > 0,
+                                                          hm[1] > 0]))
+    ctx.function(m, fn, cls + '._get_max_h_in_arrays')
+    for i_, o in enumerate(outs):
+        r = S.to_real(o.value)
+        obs.append(Obligation('setup.hmax.%d' % i_, o.pc, z3.And(
+            r >= hm[0], r >= hm[1], z3.Or(r == hm[0], r == hm[1])), W,
+            extra=dict(backends=['z3'])))
+    # _set_particle_arrays: every array gets temp_prop (once)
+    fn = m.methods(cls)['_set_particle_arrays']
+    ev = []
+    pas = [SymObject(None, dict(properties={'x': 1}, add_property=Native(
+        lambda e, s_, a, k, n: ev.append(('add', 0, a[0])))), 'pa0'),
+        SymObject(None, dict(properties={'x': 1, 'temp_prop': 1},
+                             add_property=Native(
+                                 lambda e, s_, a, k, n: ev.append(
+                                     ('add', 1, a[0])))), 'pa1')]
+    obj = SymObject(cls, {}, 'self')
+    obj.module = m.name
+    ex = Executor(repo, m, qualname=cls + '._set_particle_arrays',
+                  merge=False)
+    outs = ex.exec_function(fn, dict(self=obj, particle_arrays=pas))
+    ctx.function(m, fn, cls + '._set_particle_arrays')
+    ok = len(outs) == 1 and ev == [('add', 0, 'temp_prop')] and \
+        [p_.name for p_ in outs[0].state.env['self'].attrs[
+            'particle_arrays']] == ['pa0', 'pa1']
+    obs.append(Obligation('setup.temp_prop', [], z3.BoolVal(bool(ok)), W))
+    ctx.prove('setup.interpolator_is_wired_as_documented', obs, use_nf=False)
